@@ -65,5 +65,14 @@ CHECKS["C03"] = {
     "quick": {"checks": 120, "timeout": 1200},
     "thorough": {"checks": 2500, "timeout": 3400, "shards": 8},
 }
+CHECKS["C08"] = {
+    "pkg": "./props/c08",
+    "level": "exploration",
+    "technique": "stateful property-based testing (rapid): histories of re-signing with invariants after every step",
+    "level_text": "For 16 package types a starting artefact is drawn (generated PE/MSI/JAR/PowerShell incl. ones carrying a third-party-style signature container, or a fixture incl. the tool-signed exe/appx/rpm) and signed 1-5 (thorough: up to 12) times with drawn key, digest, options and pipeline. After every step: relic verifies the output, exactly one signature exists (DEB: one per role slot, each from the latest key for that role) and it is from the latest key with the requested digest; the payload equals the original per independent reader; the content digest embedded for a given algorithm (extracted without relic from the PE certificate table, the MSI signature stream, the PowerShell block, the JAR manifest) equals the one first embedded, and for PE equals the harness reference Authenticode digest; the is-signed probe is false on unsigned generated inputs and true on every output.",
+    "level_note": "Digest extraction exists for PE, MSI, PowerShell and JAR only; for the other types the history invariants are verify/one-signature/payload. XAP re-signing is a listed finding (excluded by construction after its probe).",
+    "quick": {"checks": 50, "timeout": 1200, "env": {"VERIF_C08_STEPS": 5}},
+    "thorough": {"checks": 700, "timeout": 3400, "shards": 8, "env": {"VERIF_C08_STEPS": 12}},
+}
 for _pid in CHECKS:
     NOT_APPLICABLE.pop(_pid, None)
